@@ -35,11 +35,15 @@ type wsSession struct {
 	nb     int
 }
 
-func startWS(pingMs int) *wsSession {
+func startWS(pingMs, burst int) *wsSession {
 	rec := &recHandler{got: make(chan []mocrelay.ClientMsg, 1), emit: make(chan mocrelay.ServerMsg)}
 	opt := mocrelay.NewDefaultRelayOption()
 	opt.RecvRateLimitRate = 1e9
 	opt.RecvRateLimitBurst = 1 << 30
+	if burst > 0 {
+		// a small burst of the receive rate limiter (the rate stays out of the way): frames of any legal size must pass
+		opt.RecvRateLimitBurst = burst
+	}
 	if pingMs > 0 {
 		opt.PingDuration = time.Duration(pingMs) * time.Millisecond
 		opt.SendTimeout = 2 * time.Second // a ping that gets no pong gives up after 2 s (default 10 s)
@@ -278,8 +282,8 @@ func genWSFrames(r *Rng, n int) []wsFrame {
 // number of sessions that stalled in this run: after a few the sweep stops (every further one would wait again)
 var wsStalled int
 
-func execWS(frames []wsFrame, outbound []mocrelay.ServerMsg, pingMs int) {
-	s := startWS(pingMs)
+func execWS(frames []wsFrame, outbound []mocrelay.ServerMsg, pingMs, burst int) {
+	s := startWS(pingMs, burst)
 	defer s.stop()
 	var fj []any
 	if pingMs > 0 {
@@ -299,7 +303,7 @@ func execWS(frames []wsFrame, outbound []mocrelay.ServerMsg, pingMs int) {
 			break
 		}
 	}
-	line := M{"op": "ws", "frames": fj, "ping_ms": pingMs}
+	line := M{"op": "ws", "frames": fj, "ping_ms": pingMs, "burst": burst}
 	if len(outbound) > 0 {
 		got, allText, _ := s.outboundStep(outbound)
 		line["outbound"] = M{"sent": smsgsJ(outbound), "got": smsgsJ(got), "allText": allText}
@@ -326,7 +330,27 @@ func init() {
 				if r.P(15) {
 					pingMs = 15 // the relay pings every 15 ms in this session
 				}
-				execWS(genWSFrames(r, r.Range(2, 10)), outbound, pingMs)
+				frames := genWSFrames(r, r.Range(2, 10))
+				burst := 0
+				if r.P(10) {
+					burst = r.Range(1, 3)
+				}
+				if burst > 0 || r.P(4) {
+					// long frames within the default size limit (100000 bytes): a valid CLOSE and a text that is not JSON
+					for k := r.Range(1, 2); k > 0; k-- {
+						n := pick(r, []int{20000, 40000, 70000, 99000})
+						var f wsFrame
+						if r.P(60) {
+							b, _ := json.Marshal(&mocrelay.ClientCloseMsg{SubscriptionID: strings.Repeat("a", n-12)})
+							f = wsFrame{Payload: b}
+						} else {
+							f = wsFrame{Payload: []byte(strings.Repeat("x", n))}
+						}
+						pos := r.Intn(len(frames) + 1)
+						frames = append(frames[:pos], append([]wsFrame{f}, frames[pos:]...)...)
+					}
+				}
+				execWS(frames, outbound, pingMs, burst)
 			}
 		},
 		replay: func(lines []replayLine) {
@@ -349,7 +373,7 @@ func init() {
 						outbound = append(outbound, smsgFromJ(x))
 					}
 				}
-				execWS(frames, outbound, int(jnum(l["ping_ms"])))
+				execWS(frames, outbound, int(jnum(l["ping_ms"])), int(jnum(l["burst"])))
 			}
 		},
 	}
